@@ -159,6 +159,7 @@ func sleepCtx(ctx context.Context, d time.Duration) error {
 }
 
 func (s *source) BlockByNumber(ctx context.Context, n uint64) (junosync.CommittedBlock, error) {
+	s.rec.active("a BlockByNumber request")
 	s.mu.Lock()
 	s.inflight++
 	if s.inflight > s.maxInflight {
